@@ -37,6 +37,17 @@ func nestedFamilies(sizes []int) []nestedFamily {
 			nestedFamily{fmt.Sprintf("two equal shells each with a hole, %d-gons", n), func() []*s2.Loop {
 				return []*s2.Loop{ring(0, 170, 6, n), ring(0, 170, 3, n), ring(0, -170, 6, n), ring(0, -170, 3, n)}
 			}},
+			// families nested around s2.OriginPoint() (0.6 degrees from the north pole): two, three
+			// and one of the loops contain the point that every crossing-parity computation starts from
+			nestedFamily{fmt.Sprintf("polar ring: shell and hole both contain the origin point, %d-gons", n), func() []*s2.Loop {
+				return []*s2.Loop{ring(90, 0, 20, n), ring(90, 0, 5, n+1)}
+			}},
+			nestedFamily{fmt.Sprintf("polar shell(hole(island)): all three contain the origin point, %d-gons", n), func() []*s2.Loop {
+				return []*s2.Loop{ring(90, 0, 20, n), ring(90, 0, 12, n+1), ring(90, 0, 5, n+2), ring(-40, 60, 9, n)}
+			}},
+			nestedFamily{fmt.Sprintf("polar shell with a hole beside the origin point + second shell, %d-gons", n), func() []*s2.Loop {
+				return []*s2.Loop{ring(90, 0, 20, n), ring(89.9, 180, 0.3, n+1), ring(30, 60, 9, n)}
+			}},
 		)
 	}
 	return out
